@@ -160,7 +160,7 @@ def cat (f : FsCfg) (env : Env) (name : Name) : M Bytes := do
     else if f.c.emptyDecodeFails && h.size == 0 && (h.pax.get Gen.recSTFSRecordUncompressedSize).isNone then
       -- a record without content under a codec: decoding the empty stream fails and the read
       -- returns that error (finding F30)
-      M.fail .other
+      M.fail f.c.emptyReadErr
     else restoreContent f o.path
   | none => restoreContent f o.path
 
